@@ -64,18 +64,21 @@ def markDelete (p : Int × Int) : Marked := ⟨p.1, p.2, false⟩
 def sortMarked (keep del : List (Int × Int)) : List Marked :=
   (keep.map markKeep ++ del.map markDelete).mergeSort Marked.le
 
-/-- `_computeKeepDeleteIntervals(start, stop, keepIntervals, deleteIntervals)`.
-`None` and `[]` are both falsy in the code, so a list argument is all that is modelled. -/
-def computeKeepDelete (start stop : Int) (keep del : List (Int × Int)) : Except Err (List Marked) :=
-  if !keep.isEmpty && !del.isEmpty then .error .ArgumentError
-  else if keep.isEmpty && del.isEmpty then .ok (sortMarked [(start, stop)] [])
+/-- `_computeKeepDeleteIntervals(start, stop, keepIntervals, deleteIntervals)` (as repaired, commit 25e3c22):
+`keepIntervals=None` means "no keep list", an explicitly empty keep list means "keep nothing"; for the delete
+list `None` and `[]` are both falsy, so a list is all that is modelled. -/
+def computeKeepDelete (start stop : Int) (keep : Option (List (Int × Int))) (del : List (Int × Int)) :
+    Except Err (List Marked) :=
+  let k := keep.getD []
+  if !k.isEmpty && !del.isEmpty then .error .ArgumentError
+  else if keep.isNone && del.isEmpty then .ok (sortMarked [(start, stop)] [])
   else if !del.isEmpty then
     match invertIntervalList del (some start) (some stop) with
-    | .ok k => .ok (sortMarked k del)
+    | .ok kk => .ok (sortMarked kk del)
     | .error e => .error e
   else
-    match invertIntervalList keep (some start) (some stop) with
-    | .ok d => .ok (sortMarked keep d)
+    match invertIntervalList k (some start) (some stop) with
+    | .ok d => .ok (sortMarked k d)
     | .error e => .error e
 
 /-! ## generators -/
@@ -118,20 +121,20 @@ def assemble (den : Nat) (f : WavFile) (gen : Option (Int → List UInt8)) : Lis
         | .error e => .error e
       | none => assemble den f gen rest
 
-/-- `markedIntervals[-1][1] > duration` → `ArgumentError` -/
-def checkLast (dur : Int) (ms : List Marked) : Except XErr Unit :=
-  match ms.getLast? with
-  | none => .error (.praat .IndexError)
-  | some m => if dur < m.e then .error (.praat .ArgumentError) else .ok ()
+/-- `markedIntervals[0][0] < 0 or markedIntervals[-1][1] > duration` → `ArgumentError` (as repaired, commit 2609506) -/
+def checkBounds (dur : Int) (ms : List Marked) : Except XErr Unit :=
+  match ms.head?, ms.getLast? with
+  | some h, some m => if h.s < 0 ∨ dur < m.e then .error (.praat .ArgumentError) else .ok ()
+  | _, _ => .error (.praat .IndexError)
 
 /-- `readFramesAtTimes(audiofile, keepIntervals, deleteIntervals, replaceFunc)`; `dur` is the numerator of
 `duration = nframes / float(frameRate)` over `den` -/
-def readFramesAtTimes (den : Nat) (f : WavFile) (dur : Int) (keep del : List (Int × Int))
+def readFramesAtTimes (den : Nat) (f : WavFile) (dur : Int) (keep : Option (List (Int × Int))) (del : List (Int × Int))
     (gen : Option (Int → List UInt8)) : Except XErr (List UInt8) :=
   match computeKeepDelete 0 dur keep del with
   | .error e => .error (.praat e)
   | .ok ms =>
-    match checkLast dur ms with
+    match checkBounds dur ms with
     | .error e => .error e
     | .ok _ => assemble den f gen ms
 
@@ -208,11 +211,16 @@ def splitLoop (toQ : α → QTime) (f : WavFile) (g : Tg α) (stem : String) (fl
         | .error e => .error e
         | .ok outs => .ok (⟨iv.s, iv.e, outputName stem style n i iv.l, outputFrames f fr, sub⟩ :: outs)
 
-/-- the entries `splitAudioOnTier` iterates over: the tier's entries minus the silence label -/
+/-- the entries `splitAudioOnTier` iterates over: the tier's entries minus the silence label.  A point tier with
+nothing left is "nothing to split"; with a point left, `start, end, label = entry` raises `ValueError`. -/
 def splitEntries (g : Tg α) (tierName : String) (silence : Option String) : Except Err (List (Iv α)) :=
   match g.getTier tierName with
   | .error e => .error e
-  | .ok (.P _) => .error .ValueError      -- `start, end, label = entry` on a Point (or log10(0))
+  | .ok (.P t) =>
+    let ps := match silence with
+      | some sl => t.ps.filter (fun (p : Pt α) => p.l != sl)
+      | none => t.ps
+    if ps.isEmpty then .ok [] else .error .ValueError
   | .ok (.I t) =>
     .ok (match silence with
       | some sl => t.es.filter (fun iv => iv.l != sl)
@@ -220,12 +228,12 @@ def splitEntries (g : Tg α) (tierName : String) (silence : Option String) : Exc
 
 /-- `splitAudioOnTier(wavFN, tgFN, tierName, outputPath, outputTGFlag, nameStyle, noPartialIntervals, silenceLabel)`
 as list logic: `g` is the textgrid as opened, `stem` the wav's file name without extension, `toQ` the exact
-value of a timestamp.  `math.log10(0)` raises `ValueError` when there is no entry. -/
+value of a timestamp.  With no entry left nothing is written and `[]` is returned (as repaired, commit 5e608f3;
+before, `math.log10(0)` raised `ValueError`). -/
 def splitAudioOnTier (toQ : α → QTime) (f : WavFile) (g : Tg α) (tierName stem : String) (flag : TgFlag)
     (style : NameStyle) (noPartial : Bool) (silence : Option String) : Except XErr (List (SplitOut α)) :=
   match splitEntries g tierName silence with
   | .error e => .error (.praat e)
-  | .ok [] => .error (.praat .ValueError)
   | .ok es => splitLoop toQ f g stem flag style noPartial es.length 0 es
 
 end
